@@ -298,6 +298,24 @@ def run_driver(scenarios, wd, tag="drv", timeout=600, target="dirkdrv", env=None
     return events, rc, err
 
 
+def run_driver_parallel(scenarios, wd, tag="drv", nproc=4, timeout=600, target="dirkdrv"):
+    """Independent sequential scenarios spread over several driver processes (contiguous chunks, so that neighbouring scenarios
+    share the world cache).  Returns (events, worst return code, stderr of the failing child)."""
+    from concurrent.futures import ThreadPoolExecutor
+    build_harness(target)
+    nproc = max(1, min(nproc, len(scenarios)))
+    size = (len(scenarios) + nproc - 1) // nproc
+    chunks = [scenarios[i:i + size] for i in range(0, len(scenarios), size)]
+    with ThreadPoolExecutor(len(chunks)) as ex:
+        res = list(ex.map(lambda ic: run_driver(ic[1], wd, tag="%s_%d" % (tag, ic[0]), timeout=timeout, target=target), enumerate(chunks)))
+    events, rc, err = [], 0, ""
+    for ev, r, e in res:
+        events += ev
+        if r != 0 and rc == 0:
+            rc, err = r, e
+    return events, rc, err
+
+
 def split_scenarios(events):
     """Group events by scenario id (Begin .. End)."""
     out, cur, cid = {}, None, None
